@@ -57,7 +57,7 @@ PROPS = {
         "level_note": "Records whose whole text is one letter (among them `F` and `S`, the in-band control messages of the asynchronous writers: only the line ending tells such a record from them) are part of the thread programs. PARTIAL: a theorem cannot exhibit real preemption inside a critical section or OS tearing of a write(2); those are sampled by the "
                       "real-thread runs, not proved. Assumes mutex critical section = atomic step, crossbeam channel FIFO per producer, one write_all per line.",
         "correspondence": "observed order of real concurrent runs vs Conc.ObsOk, and vs the sequential Flw model (directory snapshot)",
-        "rule": "seeded programs (2..8 threads x 3..25 lines of sizes 8..130, now and then 9-40 kB; nested logging from a Display argument in a third of the threads) x modes sync direct/buffered/async(pool,msg) x all namings x size limits; "
+        "rule": "asynchronous file output: records whose format function FAILS after producing part of the line (nothing of them may show up, neither as a line nor inside a later record); seeded programs (2..8 threads x 3..25 lines of sizes 8..130, now and then 9-40 kB; nested logging from a Display argument in a third of the threads) x modes sync direct/buffered/async(pool,msg) x all namings x size limits; "
                 "non-trivial = the run produced more than one file",
         "trusted": ["std::sync::Mutex, crossbeam-channel FIFO, crossbeam ArrayQueue", "OS: a single write(2) of a line is not torn"],
         "shards": 4,
@@ -116,7 +116,7 @@ PROPS = {
                       "generated histories only (bounded). Custom timestamp formats are covered by the correspondence (year-first formats, and a date-only format `r%Y-%m-%d` with many rotations per name period, for which the driver hands the model the clock truncated to the day), proofs use the structural "
                       "order of names (rendering order-preserving for 4-digit years, index < 100000, suffix sorting before 'restart'). No cleanup (as the property says).",
         "correspondence": "Flw model (step/readAll/parts/render) vs real FileLogWriter on real files with the virtual clock",
-        "rule": "seeded histories: record lengths {1,2,N-1,N,N+1,3N+7,cap+1,random} x N in {0,1,5,16,40,64} x namings x Size/Age/AgeOrSize x cap {none,1,4,8,N,8192} x "
+        "rule": "40 histories (family x, judged by the stream oracle alone) in which a due rotation CANNOT succeed although nothing is wrong with the file system: index space exhausted (a file with index 4294967294 exists), rotated name longer than 255 bytes — logging must continue in the open file, nothing lost (this family found the defect repaired by dd89690); seeded histories: record lengths {1,2,N-1,N,N+1,3N+7,cap+1,random} x N in {0,1,5,16,40,64} x namings x Size/Age/AgeOrSize x cap {none,1,4,8,N,8192} x "
                 "name-part combinations x custom formats; clock mostly frozen/+1s with minute/hour/day/month jumps; plus 40 (thorough: 600 per seed) histories of appending runs across a month end with every timestamp format incl. the day-first one; plus 9 runs with records logged from within Display (nesting depth 1..3, direct/buffered/async file output, CRLF); non-trivial = at least one rotation happened",
         "trusted": ["OS file system semantics (rename, append, truncate)", "std::io::BufWriter", "chrono formatting of the infix"],
         "assumptions": ["monotone clock", "4-digit years, rotation index < 100000, < 10000 restarts per second, suffix sorts before 'restart'"],
@@ -142,18 +142,22 @@ PROPS = {
                       "nothing is virtual, the executor sleeps into the intended seconds, the file system supplies birth and modification times, the names are compared as second offsets (STAMPS), "
                       "and an oracle independent of the model demands that a current file rotated out at start carries the second of its birth (stat), not of its last write.",
         "correspondence": "Flw model vs real FileLogWriter under the virtual clock hook; 8 (thorough: 16 per seed) cases under the real clock with the real file-system times",
-        "rule": "age-only and age-or-size(inactive) criteria x 4 ages x namings x caps, append restarts in the same/a later period; plus 200 (thorough: 3000 per seed) histories with age-or-size and BOTH parts active; real-clock shapes: restart rotates out a file written over two seconds, buffered append restart in the second of the last flush, size rotation after an append restart, age rotation under every naming; non-trivial = rotation or restart happened",
+        "rule": "200 histories (family f) with forced rotations between the records, also after several period boundaries without a write: the number of files is determined by the clock readings of records and forced rotations (oracle age-rule); age-only and age-or-size(inactive) criteria x 4 ages x namings x caps, append restarts in the same/a later period; plus 200 (thorough: 3000 per seed) histories with age-or-size and BOTH parts active; real-clock shapes: restart rotates out a file written over two seconds, buffered append restart in the second of the last flush, size rotation after an append restart, age rotation under every naming; non-trivial = rotation or restart happened",
         "trusted": ["chrono civil time", "virtual clock + creation-time table hooks (add-only, cfg-guarded)"],
         "assumptions": ["monotone local clock"],
     },
     "C15": {
         "level_text": "Kernel-checked: the files after flush/shutdown do not depend on the buffer capacity (contents_independent_of_write_mode, all namings/criteria via "
                       "refines_all); Conc.shutdown_drains gives FIFO replay for the async channel. Differential check of the same histories under direct, "
-                      "BufferDontFlush(cap), BufferAndFlush(cap) and Async{pool,msg} against the one model; raw byte chunks through io::Write.",
+                      "BufferDontFlush(cap), BufferAndFlush(cap) and Async{pool,msg} against the one model; raw byte chunks through io::Write. "
+                      "Companion Props/C15Flusher over Model/WMode (src/write_mode.rs: public variants, effective mode, without_flushing, buffer size, flush interval): "
+                      "one flusher per mode whether the mode is given to a FileLogWriter or to a Logger (one_flusher), what the Logger hands to its file writer keeps capacity and "
+                      "sync/async character (withoutFlushing_buffersize/_isAsync), and flusher_ticks_irrelevant(_on_disk): two histories that differ only in where flushes fall — "
+                      "the schedule of a flusher thread — leave the same files, also across capacities. The MODE line of a case names the PUBLIC WriteMode variant; the driver derives the capacity from the model.",
         "level_note": "PARTIAL for async: trigger_rotation is not ordered with queued records in async mode (not in the random stream; see DESIGN) and raw chunks equal to the "
                       "in-band control messages b\"F\"/b\"S\" are swallowed (known finding). Async is validated, the capacity-independence is proved.",
         "correspondence": "one Flw model run vs the real writer in 4 write modes",
-        "rule": "size criteria x namings x modes {direct, buf:1/7/64/8192, bufflush, async pool/msg small}; flush calls inside the histories in every mode (async: unobserved, a message in the channel between the records); 18 runs with records logged from within Display (depth 1..3, direct/buffered/async, LF and CRLF); non-trivial = rotation happened",
+        "rule": "size criteria x namings x public write modes {Direct, SupportCapture, BufferDontFlush (default 8 KiB), BufferDontFlushWith 1/7/64/8192, BufferAndFlush (default), BufferAndFlushWith with a sleeping and with a flusher that really ticks every 2..7 ms, Async (defaults), AsyncWith small pools/messages with and without a ticking flusher}; 120 histories with reset_flw onto the SAME family in the synchronous modes (driver: flush + restart of the writer); oracle mode-dependent: every generated history is executed once more in WriteMode::Direct and the files after the final shutdown must be equal; flush calls inside the histories in every mode (async: unobserved, a message in the channel between the records); 18 runs with records logged from within Display (depth 1..3, direct/buffered/async, LF and CRLF); non-trivial = rotation happened",
         "trusted": ["crossbeam channel FIFO"],
     },
     "C04": {
@@ -166,7 +170,7 @@ PROPS = {
         "level_note": "PARTIAL for timing: the real flusher and writer threads are represented only at the granularity of the protocol steps; the delivery guarantee of "
                       "flush() is claimed for the synchronous modes only (as the property says). Known finding C04-async-clone-drop (not repaired, see known_findings.json).",
         "correspondence": "Flw model vs Logger::build() + LoggerHandle::{flush,shutdown,clone,drop}; child process stdout/stderr vs the lines logged",
-        "rule": "the file writer as primary output or (1/4) as an additional writer `{flw}` of a logger without primary output x modes direct/buf/bufflush/async x with/without rotation x record volumes above and below the buffer x clone/drop/flush at seeded positions, ending by shutdown(), by drop of the last handle, or (sync modes, 1/4) by shutdown() + more records + drop of the last handle, "
+        "rule": "public write modes incl. the defaults, SupportCapture and flushers that really tick; flush alternately via LoggerHandle::flush and Log::flush; the file writer as primary output or (1/4) as an additional writer `{flw}` of a logger without primary output x modes direct/buf/bufflush/async x with/without rotation x record volumes above and below the buffer x clone/drop/flush at seeded positions, ending by shutdown(), by drop of the last handle, or (sync modes, 1/4) by shutdown() + more records + drop of the last handle, "
                 "two overlapping shutdown() calls with a slowed writer thread, or drop of the last handle; 40 child-process runs to stdout/stderr; non-trivial = more than one record reached the observation point",
         "trusted": ["std::io::BufWriter", "crossbeam channel FIFO", "process exit does not lose data already handed to write(2)"],
         "shards": 8,
@@ -182,7 +186,7 @@ PROPS = {
                       "Formats: the standard one, two more year-first ones, and a day-first custom format whose text order is not the time order (without cleanup; directed histories across month ends). "
                       "Three genuine defects repaired (fix 1fbd892 gz index, fix bec99bb same-second truncation, fix 3b381bc TimestampsDirect+append).",
         "correspondence": "Flw model (initState from the directory as it is) vs new FileLogWriter instances on the same directory",
-        "rule": "1..4 restarts per history x append on/off per run x namings x criteria x forced rotations x restarts in the same second or 1s..1d later; "
+        "rule": "200 histories (family f) with failing file-system operations incl. the start of a run (rename of the earlier current file, first open); 1..4 restarts per history x append on/off per run x namings x criteria x forced rotations x restarts in the same second or 1s..1d later; "
                 "non-trivial = a restart or rotation happened",
         "trusted": ["OS file system semantics", "virtual clock + creation-time table hooks"],
         "assumptions": ["monotone clock across runs", "every process that ends has flushed (drop = shutdown)"],
@@ -215,8 +219,8 @@ PROPS = {
                       "rename/remove + reopen_output and reset_flw to other families, direct and buffered.",
         "level_note": "Rotation + external rename is proved in the order-free form (the reading order of moved files is not chronological then), for every naming scheme. "
                       "Asynchronous mode is outside the property.",
-        "correspondence": "Flw model (extRename/extRemove/reopen/reset, archived families) vs FileLogWriter::reopen_outputfile/reset and LoggerHandle::reopen_output/trigger_rotation (log_to_file and log_to_file_and_writer) on real files renamed/removed by the harness",
-        "rule": "histories with EXTREN/EXTRM+REOPEN and RESET to another discriminant x no rotation / all four namings x caps incl. tails below the capacity; plus 120 (thorough: 2000 per seed) histories through a real Logger (file only / file and a second writer); in a third of the reopens the external tool has put a fresh, empty file at the path first (EXTTOUCH); "
+        "correspondence": "Flw model (extRename/extRemove/reopen/reset, archived families) vs FileLogWriter::reopen_outputfile/reset and LoggerHandle::reopen_output/trigger_rotation/reset_flw/existing_log_files (log_to_file, log_to_file_and_writer, the file writer as an additional writer, also next to a primary and eight further writers whose reopen_output()/rotate() fail) on real files renamed/removed by the harness",
+        "rule": "100 histories through the LoggerHandle in every public write mode (reset_flw with the builder in the mode the Logger hands to its file writer, trigger_rotation, flush via handle and via Log::flush, listings; asynchronous modes: listings only after shutdown); a third of the logger-driven reopen histories run the file writer as an additional writer next to writers that FAIL on reopen/rotate; oracle reopen-not-at-original-path (records logged after reopen_output() returned must end the file at the original path); histories with EXTREN/EXTRM+REOPEN and RESET to another discriminant x no rotation / all four namings x caps incl. tails below the capacity; plus 120 (thorough: 2000 per seed) histories through a real Logger (file only / file and a second writer); in a third of the reopens the external tool has put a fresh, empty file at the path first (EXTTOUCH); "
                 "non-trivial = rotation happened or a reopen/reset was executed",
         "trusted": ["OS: an open descriptor follows a renamed file; bytes written to an unlinked file are gone"],
     },
@@ -257,7 +261,7 @@ PROPS = {
                       "the cleanup thread overtakes a rotation). Four known findings (index >= 100000, suffix sorting after 'restart', suffix-less files never compressed, "
                       "day-first custom format).",
         "correspondence": "Flw model (listing/cleanupLoop) vs real cleanup incl. flate2 compression, SNAP after every write in direct mode",
-        "rule": "k,m in 0..3 x all namings x suffix present/absent x criteria x forced rotations x 0..2 restarts x cleanup inline / thread lock-step / free-running / adversarial; non-trivial = rotation or restart happened",
+        "rule": "60 histories (family s) with a SLOWED cleanup thread in every public write mode incl. WriteMode::Async built with FileLogWriter::builder (keeps the cleanup thread): limits and tail must hold the moment shutdown() has returned; k,m in 0..3 x all namings x suffix present/absent x criteria x forced rotations x 0..2 restarts x cleanup inline / thread lock-step / free-running / adversarial; non-trivial = rotation or restart happened",
         "trusted": ["flate2 gzip round trip (checked by decompression)", "OS remove/create", "hook points cleanup.thread.send/act/done used to schedule the cleanup thread"],
     },
     "C11": {
@@ -278,7 +282,7 @@ PROPS = {
                       "FlwTrace.stepT); the model continues from the matching directory, a new logger is started and compared as usual; creation times travel by inode, a file that the dead process had not yet "
                       "registered was created by the operation in flight. That every real kill state is a modelled crash state is an observation (60 kills per quick run); what IS a theorem (Props/C11Gap, points_leave_no_gap): in direct mode the recorded states of a write or forced rotation - the state before, every point, the state after - form a chain in which consecutive states differ by at most ONE atomic file-system effect (nothing, create empty, truncate, re-create an existing .gz, one append, rename, unlink, a .gz becoming readable, symlink removed, symlink created), for EVERY state; so the model has no gap between its points, and with buffering it has one (a flush and a write between write.before and write.after), which is why the claim is for direct mode.",
         "correspondence": "FlwTrace.crashDir/stepT vs child processes killed at hook points and by SIGKILL at arbitrary instants, then restart on the same directory",
-        "rule": "6 histories (quick) x {victim write, forced rotation} x 17 points x occurrences 0..2 (cleanup/compress points) x restart append on/off; direct mode, all namings, "
+        "rule": "both direct write modes (Direct and SupportCapture) in the kill histories; 6 histories (quick) x {victim write, forced rotation} x 17 points x occurrences 0..2 (cleanup/compress points) x restart append on/off; direct mode, all namings, "
                 "cleanup never/(1,1)/random; plus 60 (thorough: 1500 per seed) SIGKILLs at arbitrary instants during bursts of same-second writes; non-trivial = all (each case kills or proves the point unreachable)",
         "trusted": ["OS: written data survives process death; rename atomic", "hook points (add-only) mark the gaps between file-system effects"],
         "shards": 8,
@@ -307,7 +311,7 @@ PROPS = {
         "level_note": "Three defects repaired (763ea2b bare file name, c5fbd22 start time recomputed, bcb4371 listing before first write). The start-time part is pinned "
                       "(suppress_timestamp) in the differential histories; custom timestamp formats: 3 year-first formats; the order lemmas carry the hypothesis 'year-first format' (stamps_order_dayfirst_violation_witness shows the full statement false for a day-first format).",
         "correspondence": "Names.render/existingLogFiles/tryFromName + Flw model (names, symlink) vs the real writer and FileSpec",
-        "rule": "all name-part combinations incl. empty basename, dotted/underscore names, names containing '_r' x namings (indices of five, six and seven digits) x selectors (incl. rCURRENT and a custom current file side by side) x histories with rotation, cleanup, compression, restarts; "
+        "rule": "100 histories through LoggerHandle::existing_log_files / reset_flw of a real Logger in every public write mode; all name-part combinations incl. empty basename, dotted/underscore names, names containing '_r' x namings (indices of five, six and seven digits) x selectors (incl. rCURRENT and a custom current file side by side) x histories with rotation, cleanup, compression, restarts; "
                 "10 try_from paths incl. sub-directories; non-trivial = all",
         "trusted": ["std::path::Path::file_stem/extension (modelled as splitExt, validated)"],
     },
